@@ -9,6 +9,7 @@ package main
 import (
 	"bufio"
 	"errors"
+	"fmt"
 	"io"
 
 	"github.com/Comcast/gots/v2/packet"
@@ -182,9 +183,19 @@ func init() {
 	register("pw.write", func(a []Val) Val {
 		p := append([]byte{}, a[0].B...)
 		snap := append([]byte{}, p...)
-		sw := newScriptedWriter(a[1].Int(), a[2].Int(), a[3].Int())
-		n, err := sw.adapter(a[4].Int()).Write(p)
-		return writerResult(int64(n), err, sw, string(snap) == string(p))
+		// the caller REUSES its buffer: written once, scribbled on, refilled with the same bytes and written again through a
+		// new adapter over a writer with the same script; nothing of the first call may show in the second (stable.go)
+		run := func() Val {
+			sw := newScriptedWriter(a[1].Int(), a[2].Int(), a[3].Int())
+			n, err := sw.adapter(a[4].Int()).Write(p)
+			return writerResult(int64(n), err, sw, string(snap) == string(p))
+		}
+		r1 := run()
+		for i := range p {
+			p[i] ^= 0x5a
+		}
+		copy(p, snap)
+		return same2("Write with a reused buffer", r1, run())
 	})
 	// pw.readfrom <script> <k> <mfail> <mok> <adapter>
 	register("pw.readfrom", func(a []Val) Val {
@@ -193,9 +204,18 @@ func init() {
 			sr.chunks = append(sr.chunks, append([]byte{}, e.L[0].B...))
 			sr.errs = append(sr.errs, codeErr(e.L[1].Int()))
 		}
-		sw := newScriptedWriter(a[1].Int(), a[2].Int(), a[3].Int())
-		n, err := sw.adapter(a[4].Int()).(io.ReaderFrom).ReadFrom(sr)
-		return writerResult(n, err, sw, true)
+		// the same script read twice through two new adapters: the second run must not see anything of the first
+		sr2 := &scriptReader{}
+		for i := range sr.chunks {
+			sr2.chunks = append(sr2.chunks, append([]byte{}, sr.chunks[i]...))
+			sr2.errs = append(sr2.errs, sr.errs[i])
+		}
+		run := func(r *scriptReader) Val {
+			sw := newScriptedWriter(a[1].Int(), a[2].Int(), a[3].Int())
+			n, err := sw.adapter(a[4].Int()).(io.ReaderFrom).ReadFrom(r)
+			return writerResult(n, err, sw, true)
+		}
+		return same2("ReadFrom twice on the same script", run(sr), run(sr2))
 	})
 	// acc.run <pred kind> <k> <ops>: ops [0 pkt] WritePacket, [1] Reset, [2] Bytes, [3] Packets
 	register("acc.run", func(a []Val) Val {
@@ -232,7 +252,7 @@ func init() {
 		}
 		acc := packet.NewAccumulator(pred)
 		outs := []Val{}
-		for _, o := range a[2].L {
+		for step, o := range a[2].L {
 			switch o.L[0].Int() {
 			case 0:
 				var pkt packet.Packet
@@ -256,14 +276,18 @@ func init() {
 				acc.Reset()
 				outs = append(outs, VL(VI(1)))
 			case 2:
+				// a long-lived caller holds on to what Bytes() returned while the accumulator goes on (stable.go)
+				keep(fmt.Sprintf("Bytes() of step %d", step), acc.Bytes())
 				b := acc.Bytes()
-				keep := append([]byte{}, b...)
+				cp := append([]byte{}, b...)
 				for i := range b {
 					b[i] ^= 0xff
 				}
 				again := acc.Bytes()
-				outs = append(outs, VL(VI(2), VB(keep), VBool(string(again) == string(keep))))
+				outs = append(outs, VL(VI(2), VB(cp), VBool(string(again) == string(cp))))
 			case 3:
+				// the list handed out and every packet in it must keep describing the packets accepted at that time
+				keepPkts(fmt.Sprintf("Packets() of step %d", step), acc.Packets())
 				ps := acc.Packets()
 				vals := make([]Val, 0, len(ps))
 				for _, p := range ps {
